@@ -3,7 +3,8 @@ import re
 from . import register
 from .common import ordered_chain, is_remove_call, err_handling, io_result
 from ..analysis import (backslice, classify_result, switch_on_result_of, return_variants_from, dominated_region,
-                        closure_creation, forward_locals, LOG_CALL, arm_reaches_call)
+                        closure_creation, forward_locals, LOG_CALL, arm_reaches_call, result_tests, reachable_state,
+                        must_pass_state, return_variants_state)
 from ..facts import op_local, const_int, op_const
 
 DOC = {
@@ -81,35 +82,33 @@ def r1(ctx, lib):
     a_ok = sw is not None and any(b.dominates(o, cb.bb) for o in sw['ok']) and all('Ok' not in return_variants_from(b, e) for e in sw['err'])
     ctx.check(a_ok, rule, SR + '|a:rename-before-callback', f.where(), 'rename(path->tmp)? dominates the callback; its failure returns Err',
               'the callback is not dominated by a successful rename(path->tmp) (or the rename failure is not propagated)')
-    # (b)
-    swc = switch_on_result_of(b, cb)
-    if swc is None or not swc['err']:
-        ctx.violation(rule, SR + '|b:rollback', cb.where(), 'the callback result is not matched: no roll-back edge found')
+    # (b) - the callback's result may be tested several times (match, `?`, is_err ...): the path rules
+    # below resolve all tests of that one value consistently ("state" = Ok / Err)
+    tests = result_tests(b, cb)
+    if not tests or cb.ret is None:
+        ctx.violation(rule, SR + '|b:rollback', cb.where(), 'the callback result is never tested: no roll-back edge found')
         return
     back_bbs = {c.bb for c in back}
-    for e in swc['err']:
-        ok, off = b.must_pass(e, lambda x: x in back_bbs)
-        ctx.check(ok, rule, SR + '|b:rollback', cb.where(), 'every path from the callback\'s Err edge to a return passes rename(tmp->path)',
-                  'a path from the callback\'s Err edge reaches the return at bb%s (line %s) without rename(tmp->path)' % (off, b.blocks[off]['term']['line'] if off is not None else '?'))
-        rv = return_variants_from(b, e)
-        ctx.check('Ok' not in rv and 'Err' in rv, rule, SR + '|b:err-returned', cb.where(), 'the Err edge returns Err', 'the Err edge can return %s' % sorted(rv))
-    # (e) once the original has been renamed away, no exit leaves it stranded: every path from the
-    # forward rename's success edge to a return passes the roll-back rename or the callback's Ok edge
-    okb = set(swc['ok'])
+    okp, off = must_pass_state(b, cb.ret, tests, 'err', back_bbs)
+    ctx.check(okp, rule, SR + '|b:rollback', cb.where(), 'every path on which the callback failed passes rename(tmp->path) before returning',
+              'a path on which the callback failed reaches the return at bb%s (line %s) without rename(tmp->path)' % (off, b.blocks[off]['term']['line'] if off is not None else '?'))
+    rv = return_variants_state(b, cb.ret, tests, 'err')
+    ctx.check('Ok' not in rv and 'Err' in rv, rule, SR + '|b:err-returned', cb.where(), 'a failed callback returns Err', 'a failed callback can return %s' % sorted(rv))
+    # (e) once the original has been renamed away, no exit leaves it stranded
     if sw is not None:
         for o in sw['ok']:
-            okp, off = b.must_pass(o, lambda x: x in back_bbs or x in okb)
-            ctx.check(okp, rule, SR + '|e:no-stranded-exit', f.where(), 'after rename(path->tmp) every return is preceded by rename(tmp->path) or by a successful callback',
-                      'a path returns (bb%s, line %s) after rename(path->tmp) without restoring the original and without the callback having succeeded'
-                      % (off, b.blocks[off]['term']['line'] if off is not None else '?'))
+            early = set(b.return_blocks()) & b.reachable(o, avoid=[cb.bb])
+            ctx.check(not early, rule, SR + '|e:no-stranded-exit', f.where(), 'after rename(path->tmp) nothing returns before the callback has run (and a failed callback rolls back, clause b)',
+                      'a path returns (bb%s, line %s) after rename(path->tmp) without restoring the original and without the callback having run'
+                      % (sorted(early)[0] if early else '?', b.blocks[sorted(early)[0]]['term']['line'] if early else '?'))
     # roll-back failure is logged
     for c in back:
         cat, det = err_handling(b, c)
         ctx.check(cat in ('LOGGED', 'PROPAGATED', 'ERR-RETURNED'), rule, SR + '|b:rollback-failure-logged', c.where(), 'roll-back failure is %s' % cat, 'roll-back failure is %s %s' % (cat, det))
+        # the roll-back runs only when the callback failed
+        ctx.check(c.bb not in reachable_state(b, cb.ret, tests, 'ok'), rule, SR + '|b:rollback-only-on-failure', c.where(), 'rename(tmp->path) is not reachable when the callback succeeded', 'the roll-back can run although the callback succeeded')
     # (c),(d)
-    err_reach = set()
-    for e in swc['err']:
-        err_reach |= b.reachable(e)
+    err_reach = reachable_state(b, cb.ret, tests, 'err')
     n_rm = 0
     for c in b.calls():
         ai = is_remove_call(lib, c)
@@ -119,8 +118,8 @@ def r1(ctx, lib):
         r, _ = role(b, arg)
         if r == 'tmp':
             n_rm += 1
-            good = c.bb not in err_reach and any(b.dominates(o, c.bb) for o in swc['ok'])
-            ctx.check(good, rule, SR + '|c:remove-tmp-only-on-success', c.where(), 'remove(tmp) is reachable only through the callback\'s Ok edge',
+            good = c.bb not in err_reach and cb.bb in b.dominators()[c.bb]
+            ctx.check(good, rule, SR + '|c:remove-tmp-only-on-success', c.where(), 'remove(tmp) is reachable only when the callback succeeded',
                       'remove(tmp) is reachable without the callback having succeeded')
         else:
             ctx.violation(rule, SR + '|d:remove-original', c.where(), 'safe_remove removes a path that is not the temporary (role %s)' % r)
@@ -331,6 +330,7 @@ EXCEPTIONS_R7 = {
     # (body path, callee regex): reason
     ('<lock::FileLock as std::ops::Drop>::drop', r'fcntl_unlock$'): 'unlock in Drop: nothing can be done about a failure, the descriptor is closed right after',
     ('dedupe::FsCommand::check_can_rename', r'symlink_metadata$'): 'existence probe: `is_ok()` of the lstat *is* the answer (any failure = nothing there to overwrite; the following rename/copy reports real errors)',
+    ('dedupe::FsCommand::maybe_lock', r'FileLock::new$'): 'only ErrorKind::Unsupported is turned into Ok(None), every other error is returned (decided by C20.R2)',
     ('dedupe::FsCommand::execute', r'FsCommand::move_rename$'): 'documented fall-back: a failed rename falls through to move_copy, which reports its own error',
 }
 
